@@ -253,6 +253,9 @@ class _LayoutCallee:
             if isinstance(a, Rec) and a.kind == 'Token' and st.objs[a.oid].get('tokens') is not None:
                 ex.havoc_list_ext(st, st.objs[a.oid]['tokens'].lid)
         st.ghost['__taint__'] = st.ghost.get('__taint__', frozenset()) | {'value', 'parent', '#children'}
+        # (ghost record: a sibling layout routine was handed a subtree - contracts may demand that this happens)
+        if 'DESCENDED' in st.ghost:
+            st.ghost['DESCENDED'] = SInt(z3.simplify(ex.z_int(st.ghost['DESCENDED']) + 1))
         return [(st, None)]
 
 
@@ -408,7 +411,9 @@ class _ProcessRecursion:
         return [(st, args[0])]
 
 
-REG['sqlparse.sql.TokenList.get_sublists'] = _Sublists
+from contracts.sql import _generator_on_shapes  # noqa: E402
+# (on a node with explicit children the generator is executed in place; otherwise an opaque sequence of group children)
+REG['sqlparse.sql.TokenList.get_sublists'] = _generator_on_shapes('sqlparse.sql.TokenList.get_sublists', _Sublists)
 REG['sqlparse.filters.others.StripWhitespaceFilter.process'] = _ProcessRecursion
 REG['sqlparse.filters.others.StripWhitespaceFilter._stripws'] = _LayoutCallee
 
@@ -526,6 +531,11 @@ _site_contract(_RF + '_process_identifierlist', {'self': make_reindent, 'tlist':
                case='shape: 2 items', raises=[])
 _site_contract(_RF + '_process_identifierlist', {'self': make_reindent, 'tlist': make_idlist_shape(3)},
                case='shape: 3 items', raises=[], tier='thorough')
+for _c in ('shape: 2 items', 'shape: 3 items'):
+    # C10 "every clause keyword starts its own line" also inside the items of a list: on every path the routine hands the
+    # list on to the generic descent (which splits keywords and visits the nested groups)
+    REG.cases[(_RF + '_process_identifierlist', _c)].ghost = {'DESCENDED': '0'}
+    REG.cases[(_RF + '_process_identifierlist', _c)].ensures = ['DESCENDED >= 1']
 MORE_LAYOUT_CASES.append((_RF + '_process_identifierlist', 'shape: 2 items'))
 MORE_LAYOUT_CASES.append((_RF + '_process_identifierlist', 'shape: 3 items'))
 
@@ -658,3 +668,34 @@ REG.cases[('sqlparse.filters.others.StripCommentsFilter._process', 'shape: A com
     'tlist.tokens[3] is W1', 'tlist.tokens[4] is HINT', 'tlist.tokens[5] is W2', 'tlist.tokens[6].is_whitespace == True',
     'A.value == old(A.value)', 'B.value == old(B.value)', 'HINT.value == old(HINT.value)']
 COMMENT_SHAPE_CASES = [('sqlparse.filters.others.StripCommentsFilter._process', 'shape: A comment B ws hint ws comment')]
+
+
+def make_comment_group_shape(ex, st):
+    """Statement  SELECT ws <Comment group: ordinary comment, hint> ws X   (an ordinary comment directly followed by a hint,
+    grouped into one Comment node)"""
+    from contracts.sql import _mk_argument, _mk_leaf, _mk_node, _ws1
+    T, sql = ex.W.T, ex.W.sql
+    sel = _mk_leaf(ex, st, None, 'kw_select', (T.Keyword.DML,), normalized='SELECT')
+    c = _mk_leaf(ex, st, None, 'ctext', (T.Comment.Multiline, T.Comment.Single))
+    hint = _mk_leaf(ex, st, None, 'hint', (T.Comment.Multiline.Hint, T.Comment.Single.Hint))
+    grp = lambda g: _mk_node(ex, st, sql.Comment, 'cgroup', [c, hint], g)   # noqa: E731
+    x = _mk_argument(ex, st, 'itemX')
+    st.assume(z3.And(st.objs[x.oid]['value'].z != z3.StringVal('('), st.objs[x.oid]['value'].z != z3.StringVal(')')))
+    st.assume(z3.Not(st.objs[x.oid]['is_group'].z))
+    w1, w2 = _ws1(ex, st, 'ws1'), _ws1(ex, st, 'ws2')
+    st.ghost.update({'SEL': sel, 'HINT': hint, 'X': x})
+    return _mk_node(ex, st, sql.Statement, 'stmt', [sel, w1, grp, w2, x])
+
+
+_site_contract('sqlparse.filters.others.StripCommentsFilter.process',
+               {'self': make_filter('StripCommentsFilter'), 'stmt': make_comment_group_shape},
+               case='shape: comment group with a hint behind an ordinary comment', sites=COMMENT_SITES, serves=('C08',), raises=[])
+_c = REG.cases[('sqlparse.filters.others.StripCommentsFilter.process', 'shape: comment group with a hint behind an ordinary comment')]
+_c.shape_case = True
+_c.ensures = [
+    # C08 "removes every comment except optimizer hints": the hint survives although it stands behind an ordinary comment in
+    # the same Comment group (groups are cleaned from the inside out)
+    'len(stmt.tokens) == 5', 'stmt.tokens[0] is SEL', 'isinstance(stmt.tokens[2], sql.Comment)',
+    'len(stmt.tokens[2].tokens) == 1', 'stmt.tokens[2].tokens[0] is HINT', 'stmt.tokens[4] is X', 'result is stmt']
+COMMENT_SHAPE_CASES.append(('sqlparse.filters.others.StripCommentsFilter.process',
+                            'shape: comment group with a hint behind an ordinary comment'))
